@@ -59,14 +59,25 @@ fn start_pair(workdir: &str, n: usize) -> Pair {
         nundb::verif::set_global_data_dir(Some(dir));
         nundb::network::http_ops::start_http_client(dbs, addr);
     });
-    // wait until it accepts
-    for _ in 0..200 {
-        if TcpStream::connect(("127.0.0.1", port)).is_ok() {
-            break;
+    // wait until it accepts (a server that does not come up is a failure of the harness, never a verdict)
+    let up = |port: u16| {
+        for _ in 0..2000 {
+            if TcpStream::connect(("127.0.0.1", port)).is_ok() {
+                return true;
+            }
+            std::thread::sleep(Duration::from_millis(10));
         }
-        std::thread::sleep(Duration::from_millis(10));
+        false
+    };
+    if !up(port) {
+        eprintln!("cannot start the HTTP server on port {}", port);
+        std::process::exit(3);
     }
     let ws_port = crate::net::start_ws(h.dbs.clone());
+    if !up(ws_port) {
+        eprintln!("cannot start the WebSocket server on port {}", ws_port);
+        std::process::exit(3);
+    }
     Pair { h, t, port, ws_port }
 }
 
